@@ -72,6 +72,29 @@ Theorem no_panic : forall evs,
 Proof. exact no_panic_model. Qed.
 Print Assumptions no_panic.
 
+(* Wake-ups are not lost: a sleeper is either wakeable now (its captured
+   channel is closed) or sleeps on the channel of a Cleaner call that is in
+   flight; a wakeable sleeper's Wake step and an in-flight cleaner's
+   CleanDone step are enabled, and CleanDone closes the channel.  (That
+   the Go runtime eventually runs them is an assumption.) *)
+Theorem sleeper_wakeable : forall evs t g,
+  let s := run init evs in
+  pcs s t = PWait g ->
+  closed s g = true \/ (wakeup s = Some g /\ exists c, is_clean (pcs s c) = true).
+Proof. exact sleeper_wakeable_model. Qed.
+Print Assumptions sleeper_wakeable.
+
+Theorem wake_enabled : forall s t g,
+  pcs s t = PWait g -> closed s g = true -> snd (step s (Wake t)) <> ONone.
+Proof. exact wake_enabled_model. Qed.
+Print Assumptions wake_enabled.
+
+Theorem clean_done_enabled : forall s t ok,
+  is_clean (pcs s t) = true ->
+  snd (step s (CleanDone t ok)) <> ONone /\ wakeup (fst (step s (CleanDone t ok))) = None.
+Proof. exact clean_done_enabled_model. Qed.
+Print Assumptions clean_done_enabled.
+
 (* Non-vacuity: a reachable state with a cleaner in flight and two sleepers,
    one reachable with two users; a balanced history; an unbalanced one that
    panics. *)
